@@ -771,5 +771,195 @@ theorem label_optimal {I : Inst α} {ok : Nat → Bool} {c hv : Nat → α} (U :
     simpa using this
   · intro _ _ s h; cases h
 
+/-- Dijkstra is the case `h = 0`: no admissibility premise is needed -/
+theorem dijkstra_label_optimal {I : Inst α} {ok : Nat → Bool} {c : Nat → α}
+    (U : UniformCost I ok c) (h0 : ∀ v st, I.h v st = .ok 0)
+    {source t : Nat} (hts : t ≠ source)
+    {sched : List Nat} {s : SState α} (hrun : runAStar I source (some t) sched = .ok s) :
+    ∃ d, s.g t = some d ∧ (∃ es, Walk I ok source es t ∧ cost c es = d) ∧
+      ∀ es, Walk I ok source es t → d ≤ cost c es := by
+  have U' : Uniform I ok c (fun _ => 0) := { U with h_eq := h0, h_nonneg := fun _ => le_refl _ }
+  exact label_optimal U' hts (fun v es _ => cost_nonneg U.cost_pos es) hrun
+
+/-- walks only depend on the graph part of the instance -/
+theorem Walk.congr {I I' : Inst α} {ok : Nat → Bool} (hi : I'.incident = I.incident)
+    (hk : I'.keyV = I.keyV) (ht : I'.termV = I.termV) :
+    ∀ (es : List Nat) (u v : Nat), Walk I' ok u es v ↔ Walk I ok u es v
+  | [], u, v => Iff.rfl
+  | e :: es, u, v => by
+    simp only [Walk, hi, hk, ht, Walk.congr hi hk ht es]
+
+/-- two successful runs on the same graph, validity and edge costs — any two accepted schedules,
+any two admissible vertex heuristics — give the target the same label -/
+theorem label_unique {I I' : Inst α} {ok : Nat → Bool} {c hv hv' : Nat → α}
+    (U : Uniform I ok c hv) (U' : Uniform I' ok c hv')
+    (hi : I'.incident = I.incident) (hk : I'.keyV = I.keyV) (ht : I'.termV = I.termV)
+    {source t : Nat} (hadm : Admissible I ok c hv t) (hadm' : Admissible I' ok c hv' t)
+    {sched sched' : List Nat} {s s' : SState α}
+    (hrun : runAStar I source (some t) sched = .ok s)
+    (hrun' : runAStar I' source (some t) sched' = .ok s') : s.g t = s'.g t := by
+  by_cases hts : t = source
+  · subst hts
+    simp only [runAStar, beq_self_eq_true, if_true] at hrun hrun'
+    injection hrun with h; injection hrun' with h'
+    rw [← h, ← h']
+  · obtain ⟨d, hd, ⟨es, hw, hcost⟩, hmin⟩ := label_optimal U hts hadm hrun
+    obtain ⟨d', hd', ⟨es', hw', hcost'⟩, hmin'⟩ := label_optimal U' hts hadm' hrun'
+    have h1 := hmin es' ((Walk.congr hi hk ht es' source t).1 hw')
+    have h2 := hmin' es ((Walk.congr hi hk ht es source t).2 hw)
+    have : d = d' := le_antisymm (by rw [hcost'] at h1; exact h1) (by rw [hcost] at h2; exact h2)
+    rw [hd, hd', this]
+
+/-- **A\* = Dijkstra**: a run with an admissible heuristic and a run of the same instance with the
+heuristic replaced by 0 (any two accepted schedules) give the target the same label -/
+theorem astar_eq_dijkstra {I : Inst α} {ok : Nat → Bool} {c hv : Nat → α} (U : Uniform I ok c hv)
+    {source t : Nat} (hadm : Admissible I ok c hv t)
+    {sched sched' : List Nat} {s s' : SState α}
+    (hrun : runAStar I source (some t) sched = .ok s)
+    (hrun' : runAStar { I with h := fun _ _ => .ok 0 } source (some t) sched' = .ok s') :
+    s.g t = s'.g t := by
+  have U' : Uniform { I with h := fun _ _ => .ok 0 } ok c (fun _ => 0) :=
+    { incident_term := U.incident_term, valid_eq := U.valid_eq, trav_eq := U.trav_eq,
+      cost_pos := U.cost_pos, h_eq := fun _ _ => rfl, h_nonneg := fun _ => le_refl _ }
+  exact label_unique U U' rfl rfl rfl hadm (fun v es _ => cost_nonneg U.cost_pos es) hrun hrun'
+
+/-! ### C05: reachability -/
+
+/-- a run that reports "no path" is right: there is no valid walk `source ⇝ t`.  Holds for every
+vertex heuristic (no admissibility, not even non-negativity) and under limits, as long as the
+termination model's own error is not `noPath`. -/
+theorem nopath_imp_unreachable {I : Inst α} {ok : Nat → Bool} {c hv : Nat → α}
+    (U : UniformCost I ok c) (hh : VertexH I hv) (hterm : TermNotNoPath I)
+    {source t : Nat} {sched : List Nat}
+    (hrun : runAStar I source (some t) sched = .error .noPath) :
+    ¬ ∃ es, Walk I ok source es t := by
+  by_cases hts : t = source
+  · subst hts
+    simp [runAStar] at hrun
+  have hts' : (some t : Option Nat) ≠ some source := by simpa using hts
+  refine runAStar_ind U (hv := hv) (target := some t) (fun _ => hh) hts'
+    (fun r => r = .error .noPath → ¬ ∃ es, Walk I ok source es t) ?_ ?_ ?_ ?_ sched hrun
+  · intro s0 t' hgood hq htar _ hex
+    cases htar
+    obtain ⟨es, hw⟩ := hex
+    rw [hq] at hgood
+    obtain ⟨x, hx, _⟩ := hgood.1.src
+    obtain ⟨y, hy, _⟩ := closed_walk hgood es source t x hx hw
+    obtain ⟨f, hf⟩ := hgood.2.2 t rfl y hy
+    simp at hf
+  · intro _ _ _ _ h; cases h
+  · intro _ _ _ _ _ h; cases h
+  · intro k hk h
+    injection h with h
+    obtain ⟨n, i, hni⟩ := hk h
+    exact absurd hni (hterm n i)
+
+/-- a successful run has labelled the target, and the label is the cost of a valid walk -/
+theorem ok_imp_reachable {I : Inst α} {ok : Nat → Bool} {c hv : Nat → α}
+    (U : UniformCost I ok c) (hh : VertexH I hv)
+    {source t : Nat} (hts : t ≠ source) {sched : List Nat} {s : SState α}
+    (hrun : runAStar I source (some t) sched = .ok s) :
+    ∃ d es, s.g t = some d ∧ Walk I ok source es t ∧ cost c es = d := by
+  have hts' : (some t : Option Nat) ≠ some source := by simpa using hts
+  refine runAStar_ind U (hv := hv) (target := some t) (fun _ => hh) hts'
+    (fun r => ∀ s, r = .ok s → ∃ d es, s.g t = some d ∧ Walk I ok source es t ∧ cost c es = d)
+    ?_ ?_ ?_ ?_ sched s hrun
+  · intro _ _ _ _ _ s h; cases h
+  · intro _ _ _ htar; cases htar
+  · intro s0 t' hgood htar hpop s' hs'
+    cases htar
+    have hs : s' = { s0 with queue := s0.queue.filter (fun p => !(p.1 == t)) } := by
+      injection hs' with h; exact h.symm
+    subst hs
+    obtain ⟨ft, hmem, _⟩ := popOk_spec hpop
+    obtain ⟨d, hd, _⟩ := hgood.1.qval t ft hmem
+    obtain ⟨es, hw, hcost⟩ := hgood.1.sound _ _ hd
+    exact ⟨d, es, hd, hw, hcost⟩
+  · intro _ _ s h; cases h
+
+/-- for a run that ended with success or with "no path": success exactly when the target is
+reachable by a valid walk -/
+theorem ok_iff_reachable {I : Inst α} {ok : Nat → Bool} {c hv : Nat → α}
+    (U : UniformCost I ok c) (hh : VertexH I hv) (hterm : TermNotNoPath I)
+    {source t : Nat} {sched : List Nat}
+    (hres : (∃ s, runAStar I source (some t) sched = .ok s) ∨
+      runAStar I source (some t) sched = .error .noPath) :
+    (∃ s, runAStar I source (some t) sched = .ok s) ↔ ∃ es, Walk I ok source es t := by
+  constructor
+  · rintro ⟨s, hs⟩
+    by_cases hts : t = source
+    · exact ⟨[], hts.symm⟩
+    · obtain ⟨_, es, _, hw, _⟩ := ok_imp_reachable U hh hts hs
+      exact ⟨es, hw⟩
+  · intro hex
+    rcases hres with h | h
+    · exact h
+    · exact absurd hex (nopath_imp_unreachable U hh hterm h)
+
+/-- the same with "no path" on the left -/
+theorem nopath_iff_unreachable {I : Inst α} {ok : Nat → Bool} {c hv : Nat → α}
+    (U : UniformCost I ok c) (hh : VertexH I hv) (hterm : TermNotNoPath I)
+    {source t : Nat} {sched : List Nat}
+    (hres : (∃ s, runAStar I source (some t) sched = .ok s) ∨
+      runAStar I source (some t) sched = .error .noPath) :
+    runAStar I source (some t) sched = .error .noPath ↔ ¬ ∃ es, Walk I ok source es t := by
+  constructor
+  · exact nopath_imp_unreachable U hh hterm
+  · intro hno
+    rcases hres with ⟨s, hs⟩ | h
+    · exact absurd ((ok_iff_reachable U hh hterm (Or.inl ⟨s, hs⟩)).1 ⟨s, hs⟩) hno
+    · exact h
+
+/-! ### Destination-less search -/
+
+/-- the tree of a destination-less search labels exactly the vertices reachable by a valid walk -/
+theorem tree_eq_reachable {I : Inst α} {ok : Nat → Bool} {c : Nat → α} (U : UniformCost I ok c)
+    {source : Nat} {sched : List Nat} {s : SState α}
+    (hrun : runAStar I source none sched = .ok s) (v : Nat) :
+    (∃ x, s.g v = some x) ↔ ∃ es, Walk I ok source es v := by
+  refine runAStar_ind U (hv := fun _ => (0 : α)) (target := none) (fun h => by cases h)
+    (by simp) (fun r => ∀ s, r = .ok s →
+      ((∃ x, s.g v = some x) ↔ ∃ es, Walk I ok source es v)) ?_ ?_ ?_ ?_ sched s hrun
+  · intro _ _ _ _ htar; cases htar
+  · intro s0 hgood hq _ s' hs'
+    injection hs' with hs'
+    subst hs'
+    rw [hq] at hgood
+    constructor
+    · rintro ⟨x, hx⟩
+      obtain ⟨es, hw, _⟩ := hgood.1.sound _ _ hx
+      exact ⟨es, hw⟩
+    · rintro ⟨es, hw⟩
+      obtain ⟨x, hx, _⟩ := hgood.1.src
+      obtain ⟨y, hy, _⟩ := closed_walk hgood es source v x hx hw
+      exact ⟨y, hy⟩
+  · intro _ _ _ htar; cases htar
+  · intro _ _ s h; cases h
+
+/-- and every label of a destination-less search is the least cost of a valid walk from the
+source, attained -/
+theorem tree_labels_optimal {I : Inst α} {ok : Nat → Bool} {c : Nat → α} (U : UniformCost I ok c)
+    {source : Nat} {sched : List Nat} {s : SState α}
+    (hrun : runAStar I source none sched = .ok s) (v : Nat) (x : α) (hx : s.g v = some x) :
+    (∃ es, Walk I ok source es v ∧ cost c es = x) ∧
+      ∀ es, Walk I ok source es v → x ≤ cost c es := by
+  refine runAStar_ind U (hv := fun _ => (0 : α)) (target := none) (fun h => by cases h)
+    (by simp) (fun r => ∀ s, r = .ok s → s.g v = some x →
+      (∃ es, Walk I ok source es v ∧ cost c es = x) ∧
+        ∀ es, Walk I ok source es v → x ≤ cost c es) ?_ ?_ ?_ ?_ sched s hrun hx
+  · intro _ _ _ _ htar; cases htar
+  · intro s0 hgood hq _ s' hs' hx
+    injection hs' with hs'
+    subst hs'
+    rw [hq] at hgood
+    refine ⟨hgood.1.sound _ _ hx, fun es hw => ?_⟩
+    have h0 := hgood.1.src_zero U.cost_pos
+    obtain ⟨y, hy, hyle⟩ := closed_walk hgood es source v 0 h0 hw
+    rw [hx] at hy
+    have : x = y := by simpa using hy
+    rw [this]; simpa using hyle
+  · intro _ _ _ htar; cases htar
+  · intro _ _ s h; cases h
+
 end SearchOpt
 end Compass
